@@ -1,3 +1,124 @@
-From TV Require Import Base.
-Theorem C08_placeholder : True. Proof. exact I. Qed.
-Print Assumptions C08_placeholder.
+(* C08 -- attached log streams get every read byte once, minus only the suppressed prompt.
+   Property theorems only; proofs are in ProofC08.v.
+   fwdb is the model's ghost record of the raw bytes handed to the attached streams; every fragment is
+   handed to ALL attached streams as the same text (C08_all_streams_same_text). *)
+From TV Require Import Base BaseLemmas Utf8 Regex Channel ChannelLemmas ProofC02 ProofC05 ProofC08.
+
+(* (1) suppression on, literal prompt: the invariant  forwarded ++ held = data read since attaching,
+       held = the LONGEST suffix of that data which is still a prefix of the prompt,
+       is preserved by every _write_stream call, whatever the piece boundaries *)
+Theorem C08_suppress_invariant :
+  forall p buf c f0 d,
+  streams (lgs c) <> [] -> log_prompt (lgs c) = false -> prompt c = Some (SLit p) ->
+  sinv p f0 d (lgs c) ->
+  sinv p f0 (d ++ buf) (lgs (write_stream buf c)) /\
+  streams (lgs (write_stream buf c)) = streams (lgs c) /\
+  log_prompt (lgs (write_stream buf c)) = false.
+Proof. exact write_stream_suppress. Qed.
+Print Assumptions C08_suppress_invariant.
+
+(* (1b) hence what was forwarded is a prefix of the data: everything except the held-back suffix *)
+Theorem C08_forwarded_is_prefix :
+  forall p f0 d l, sinv p f0 d l -> f0 ++ d = fwdb l ++ held p d.
+Proof. exact forwarded_is_all_but_held. Qed.
+Print Assumptions C08_forwarded_is_prefix.
+
+(* (1c) only a piece that could still become the prompt is held back, and it is released as soon as it
+        cannot: held is a prompt prefix and no longer suffix of the data is one *)
+Theorem C08_held_is_prompt_prefix :
+  forall p d, exists k, k <= length p /\ held p d = firstn k p.
+Proof. exact held_is_prompt_prefix. Qed.
+Print Assumptions C08_held_is_prompt_prefix.
+
+Theorem C08_held_is_longest :
+  forall p d j,
+  length (held p d) < j -> j <= length d -> j <= length p -> take_last j d <> firstn j p.
+Proof. exact held_is_longest. Qed.
+Print Assumptions C08_held_is_longest.
+
+(* (1d) the incremental computation over the retained bytes equals the computation over everything
+        read so far (the reason the for-loop over _streambuf is enough) *)
+Theorem C08_overlap_incremental :
+  forall p d buf, overlap p (take_last (overlap p d) d ++ buf) = overlap p (d ++ buf).
+Proof. exact overlap_incremental. Qed.
+Print Assumptions C08_overlap_incremental.
+
+(* (2) attach a suppressing stream, read to the (literal) prompt: the stream holds exactly the output
+       without the prompt, the prompt is what is held back, detaching drops it: for every
+       fragmentation, timeout-free or not, with or without death strings *)
+Theorem C08_stream_holds_output_without_prompt :
+  forall sid c out c' p,
+  wfc c -> prompt c = Some (SLit p) -> streams (lgs c) = [] -> streambuf (lgs c) = [] ->
+  read_until_prompt None None (push_stream sid false c) = (Ret out, c') ->
+  exists O, fwdb (lgs c') = fwdb (lgs c) ++ O /\ out = text O /\
+            streambuf (lgs c') = p /\ streambuf (lgs (pop c')) = [] /\
+            cpend c = (O ++ p) ++ cpend c'.
+Proof. exact stream_gets_output_without_prompt. Qed.
+Print Assumptions C08_stream_holds_output_without_prompt.
+
+(* (2b) whatever is held back when detaching is dropped: nothing leaks into a later attachment *)
+Theorem C08_nothing_leaks_after_detach :
+  forall sid prevlp rest c p d f0,
+  ctx c = FStream sid prevlp :: rest -> log_prompt (lgs c) = false -> prompt c = Some (SLit p) ->
+  sinv p f0 d (lgs c) -> streambuf (lgs (pop c)) = [].
+Proof. exact pop_stream_drops_any_held. Qed.
+Print Assumptions C08_nothing_leaks_after_detach.
+
+(* (3) suppression off (or no prompt configured): everything read is forwarded at once *)
+Theorem C08_show_mode_forwards_everything :
+  forall buf c,
+  streams (lgs c) <> [] -> (log_prompt (lgs c) = true \/ prompt c = None) ->
+  fwdb (lgs (write_stream buf c)) = fwdb (lgs c) ++ buf /\
+  streambuf (lgs (write_stream buf c)) = streambuf (lgs c).
+Proof. exact write_stream_show. Qed.
+Print Assumptions C08_show_mode_forwards_everything.
+
+(* (4) nothing is forwarded while no stream is attached *)
+Theorem C08_nothing_forwarded_when_detached :
+  forall buf c, streams (lgs c) = [] -> write_stream buf c = c.
+Proof. exact write_stream_detached. Qed.
+Print Assumptions C08_nothing_forwarded_when_detached.
+
+(* (5) all simultaneously attached streams receive the same text *)
+Theorem C08_all_streams_same_text :
+  forall frag l,
+  sout (emit frag l) = rev (map (fun sid => (sid, utf8_dec frag)) (streams l)) ++ sout l /\
+  fwdb (emit frag l) = fwdb l ++ frag.
+Proof. exact emit_same_text. Qed.
+Print Assumptions C08_all_streams_same_text.
+
+(* (6) text level: for data that no piece boundary can split inside a character (ASCII) the text is the bytes *)
+Theorem C08_ascii_text_is_bytes :
+  forall l, Forall (fun b => (b < 128)%N) l -> utf8_dec l = l.
+Proof. exact utf8_dec_ascii. Qed.
+Print Assumptions C08_ascii_text_is_bytes.
+
+(* (7) the full statement is FALSE for regex prompts and for nested attachments with different modes
+       (recorded findings, see known_findings.json / DESIGN.md D11); the theorems above are therefore the
+       literal-prompt, uniform-mode part of the property.  Witnesses: *)
+Theorem C08_regex_prompt_refuted :
+  let c0 := push_stream 0 false (push_prompt (SRe d11_re)
+              (chan_init [(0%Z, [97; 98; 49; 50; 62; 32]%N)] [])) in
+  let (r, c1) := read_until_prompt None None c0 in
+  r = Ret [97; 98]%N /\ fwdb (lgs (pop c1)) = [97]%N.
+Proof. exact regex_holdback_refuted. Qed.
+Print Assumptions C08_regex_prompt_refuted.
+
+Theorem C08_nested_modes_refuted :
+  let c0 := push_stream 0 false (push_prompt (SLit [61; 62; 32]%N)
+              (chan_init [(0%Z, [61]%N); (0%Z, [120]%N); (0%Z, [121; 61; 62; 32]%N)] [])) in
+  let c1 := snd (read 1 None c0) in
+  let c2 := snd (read 1 None (push_stream 1 true c1)) in
+  let c3 := snd (read_until_prompt None None (pop c2)) in
+  fwdb (lgs c2) = [120]%N /\ fwdb (lgs c3) = [120; 61; 121]%N.
+Proof. exact nested_modes_refuted. Qed.
+Print Assumptions C08_nested_modes_refuted.
+
+Theorem C08_example :
+  let c0 := push_stream 0 false (push_prompt (SLit [61; 62; 32]%N)
+              (chan_init [(0%Z, [120; 61; 61]%N); (0%Z, [62]%N); (0%Z, [32]%N)] [])) in
+  let (r, c1) := read_until_prompt None None c0 in
+  (r, fwdb (lgs c1), streambuf (lgs c1), streambuf (lgs (pop c1))) =
+  (Ret [120; 61]%N, [120; 61]%N, [61; 62; 32]%N, []).
+Proof. exact suppress_example. Qed.
+Print Assumptions C08_example.
